@@ -590,6 +590,8 @@ class Flattening:
                 if isinstance(n, ast.Call):
                     if isinstance(n.func, ast.Attribute) and self.cx.is_import_value(f, n.func.value):
                         continue
+                    if isinstance(n.func, ast.Attribute) and n.func.attr in MUTATORS and _ledger_of(f, n.func.value) is not None:
+                        continue  # recording something in a container (`self._pending.setdefault(<name>)`): the arguments are judged, not the call
                     try:
                         cs, _ = self.cx.T.callees(f, n, byname_fallback=False)
                     except Exception:  # noqa: BLE001
